@@ -59,10 +59,33 @@ func Variants(d *ring.Desc, now time.Time) []*ring.Desc {
 	}
 }
 
-// Install feeds the variants and then d itself to the client.
+// Install feeds the variants and then d itself to the client. After every variant the client is queried through
+// each kind of lookup, so that whatever it memoises per content (shards, token ranges, replica sets) has been
+// filled from the earlier content when d arrives.
 func Install(r *ring.Ring, d *ring.Desc, now time.Time) {
 	for _, v := range Variants(d, now) {
 		r.VerifUpdateRingState(v)
+		warm(r, v)
 	}
 	r.VerifUpdateRingState(d)
+}
+
+func warm(r *ring.Ring, v *ring.Desc) {
+	defer func() { _ = recover() }() // answers (and failures) on the earlier content are not what is being judged
+	for id := range v.Ingesters {
+		_, _ = r.GetTokenRangesForInstance(id)
+		_, _ = r.GetInstanceState(id)
+	}
+	for _, k := range []uint32{0, 1, 1 << 31, 1<<32 - 1} {
+		_, _ = r.Get(k, ring.Write, nil, nil, nil)
+		_, _ = r.Get(k, ring.Read, nil, nil, nil)
+	}
+	_, _ = r.GetReplicationSetForOperation(ring.Read)
+	_, _ = r.GetAllHealthy(ring.Reporting)
+	for _, size := range []int{1, 2} {
+		_ = r.ShuffleShard("tenant-a", size)
+		_ = r.ShuffleShardWithLookback("tenant-a", size, time.Hour, time.Now())
+	}
+	_ = r.InstancesCount()
+	_ = r.ZonesCount()
 }
